@@ -45,6 +45,10 @@ def generate(rng, tier):
                     cases.append(W.mk_case("C04", "hit", "ok", 0, na, us, [], False, prog))
         cases.append(W.mk_case("C04", "hit", "ok", 1, 1, [], [], False, {"b0": "ab~%d~0~0" % code}))
         cases.append(W.mk_case("C04", "hit", "ok", 0, 0, [], [], False, {"e": "ab~%d~1~0" % code}))
+        for kwv in (2, 3):       # abort(code, error=<tuple> / <text with % signs>)
+            cases.append(W.mk_case("C04", "hit", "ok", 0, 0, [], [], False, {"e": "ab~%d~%d~0" % (code, kwv)}))
+            cases.append(W.mk_case("C04", "hit", "ok", 0, 1, [code], [], False,
+                                   {"e": "ab~%d~%d~0" % (code, kwv), "s%d" % code: "ret~S68616e646c6564"}))
     for f in p["resps"]:
         cases.append(W.mk_case("C04", "hit", "ok", 0, 2, [], [], False, {"e": "abr~" + f.tok[1:]}))
     # exceptions x handler orders
@@ -146,6 +150,8 @@ def oracle(case):
                 bad = "abort(0) must decline the request"
         elif code == 200 or kw == "1" or (code == 401 and c["digest"]):
             pass
+        elif kw in ("2", "3") and code not in W.ERROR_KW_PAGES and code not in c["us"] and code in (304, 500):
+            pass        # a page without an `error` parameter: the unexpected keyword is a failure of its own
         elif code in c["us"] and (c["usm"][c["us"].index(code)] & W.method_bit(c["meth"])):
             h = c["prog"].get("s%d" % code, "ret~N")
             if "s%d" % code not in trace:
